@@ -563,7 +563,7 @@ type Server struct {
 	st     *Store
 	univ   Universe
 	clock  *Clock
-	faults map[string]bool
+	faults map[string]int // address -> 1 + index into faultErrs
 
 	nInvList, nInvGet, nInvWrite int
 	nGet                         map[int]int
@@ -585,9 +585,9 @@ type Server struct {
 }
 
 func NewServer(st *Store, clock *Clock, env Env) *Server {
-	s := &Server{st: st, univ: st.univ, clock: clock, faults: map[string]bool{}, nGet: map[int]int{}, cancelAt: env.Cancel}
+	s := &Server{st: st, univ: st.univ, clock: clock, faults: map[string]int{}, nGet: map[int]int{}, cancelAt: env.Cancel}
 	for _, f := range env.Faults {
-		s.faults[f.Key()] = true
+		s.faults[f.Key()] = 1 + f.Err
 	}
 	return s
 }
@@ -605,7 +605,7 @@ func (s *Server) begin(what string) {
 }
 
 // hit records the address and tells whether the request must be rejected.
-func (s *Server) hit(a FAddr) bool {
+func (s *Server) hit(a FAddr) error {
 	k := a.Key()
 	seen := false
 	for _, b := range s.addrs {
@@ -617,10 +617,31 @@ func (s *Server) hit(a FAddr) bool {
 	if !seen {
 		s.addrs = append(s.addrs, a)
 	}
-	return s.faults[k]
+	if e := s.faults[k]; e > 0 {
+		return injectedError(e-1, a)
+	}
+	return nil
 }
 
-var errInjected = apierrors.NewInternalError(fmt.Errorf("injected fault"))
+// injectedError builds the rejection of the given kind. None of them makes a
+// client retry: client-go's REST client only retries 429 / 5xx answers that
+// carry a Retry-After header (none is set), the dynamic decorator is called
+// directly, and kubectl's patcher retries only on 409 Conflict, which is
+// therefore never drawn for the apply path (FApply).
+func injectedError(kind int, a FAddr) error {
+	gr := schema.GroupResource{Resource: "injected"}
+	switch faultErrs[kind] {
+	case 403:
+		return apierrors.NewForbidden(gr, a.Key(), fmt.Errorf("injected fault"))
+	case 409:
+		return apierrors.NewConflict(gr, a.Key(), fmt.Errorf("injected fault"))
+	case 400:
+		return apierrors.NewBadRequest("injected fault")
+	case 503:
+		return apierrors.NewServiceUnavailable("injected fault")
+	}
+	return apierrors.NewInternalError(fmt.Errorf("injected fault"))
+}
 
 func (s *Server) id(gvr schema.GroupVersionResource, ns, name string) int {
 	k := kindByResource(gvr.Resource)
@@ -697,14 +718,14 @@ func (s *Server) opGet(gvr schema.GroupVersionResource, ns, name string) (*unstr
 	if gvr == invGVR && ns == invNS && name == invName {
 		a := FAddr{Kind: "FInvGet", N: s.nInvGet}
 		s.nInvGet++
-		if s.hit(a) {
-			return nil, errInjected
+		if err := s.hit(a); err != nil {
+			return nil, err
 		}
 	} else if id := s.id(gvr, ns, name); id >= 0 {
 		a := FAddr{Kind: "FGet", I: id, N: s.nGet[id]}
 		s.nGet[id]++
-		if s.hit(a) {
-			return nil, errInjected
+		if err := s.hit(a); err != nil {
+			return nil, err
 		}
 	} else {
 		s.noteUnexpected("GET of %s %s/%s outside the universe", gvr.Resource, ns, name)
@@ -727,8 +748,8 @@ func (s *Server) opList(gvr schema.GroupVersionResource, ns, selector string) (*
 	if gvr == invGVR && strings.Contains(selector, common.InventoryLabel) {
 		a := FAddr{Kind: "FInvList", N: s.nInvList}
 		s.nInvList++
-		if s.hit(a) {
-			return nil, errInjected
+		if err := s.hit(a); err != nil {
+			return nil, err
 		}
 	} else {
 		s.noteUnexpected("LIST of %s in %q with selector %q", gvr.Resource, ns, selector)
@@ -781,9 +802,9 @@ func (s *Server) opCreate(gvr schema.GroupVersionResource, ns string, obj *unstr
 		s.noteUnexpected("dynamic CREATE of %s %s/%s", gvr.Resource, ns, obj.GetName())
 		return nil, apierrors.NewBadRequest("unexpected create")
 	}
-	if s.hit(addr) {
+	if err := s.hit(addr); err != nil {
 		s.logReq(coq, text, false)
-		return nil, errInjected
+		return nil, err
 	}
 	if s.st.get(gvr, ns, obj.GetName()) != nil {
 		s.logReq(coq, text, false)
@@ -833,9 +854,9 @@ func (s *Server) opUpdate(gvr schema.GroupVersionResource, ns string, obj *unstr
 		addr = FAddr{Kind: "FUpdate", I: id}
 		coq, text = emit.App("RUpdate", emit.Nat(id)), fmt.Sprintf("RUpdate %d", id)
 	}
-	if s.hit(addr) {
+	if err := s.hit(addr); err != nil {
 		s.logReq(coq, text, false)
-		return nil, errInjected
+		return nil, err
 	}
 	live := s.st.get(gvr, ns, obj.GetName())
 	if live == nil {
@@ -873,9 +894,9 @@ func (s *Server) opPatch(gvr schema.GroupVersionResource, ns, name string, pt ty
 	ssa := pt == types.ApplyPatchType
 	coq := emit.App("RPatch", emit.Nat(id), emit.Bool(ssa), emit.Bool(dry))
 	text := fmt.Sprintf("RPatch %d ssa=%v dry=%v", id, ssa, dry)
-	if s.hit(FAddr{Kind: "FApply", I: id}) {
+	if err := s.hit(FAddr{Kind: "FApply", I: id}); err != nil {
 		s.logReq(coq, text, false)
-		return nil, errInjected
+		return nil, err
 	}
 	live := s.st.get(gvr, ns, name)
 	var res *unstructured.Unstructured
@@ -988,9 +1009,9 @@ func (s *Server) opDelete(gvr schema.GroupVersionResource, ns, name string, opts
 		coq = emit.App("RDelete", emit.Nat(id), emit.N(pre), p.Coq())
 		text = fmt.Sprintf("RDelete %d pre=u%d %s", id, pre, p.Coq())
 	}
-	if s.hit(addr) {
+	if err := s.hit(addr); err != nil {
 		s.logReq(coq, text, false)
-		return errInjected
+		return err
 	}
 	live := s.st.get(gvr, ns, name)
 	if live == nil {
